@@ -790,31 +790,57 @@ func (cx *qctx) compareFind(got []cand, counts map[string]int, ratios map[string
 
 	if approx {
 		// order statistics: i-th reported within MaxError of the i-th true
-		if len(got) != want {
-			return &failure{kind: "missing", absent: absentOf(head), msg: fmt.Sprintf("%d results, scan has %d within the limit (MaxResults %d, MaxError %.3g); got%s; expected%s", len(got), len(all), k, o.MaxError, fmtCands(got, 8), fmtCands(all, 8))}
-		}
-		for i, g := range got {
-			td := all[i].d
-			var bad bool
-			var bound s1.ChordAngle
-			if f {
-				bound = td.Sub(me)
-				bad = float64(g.d) < float64(bound)*(1-1e-13)-1e-300 || g.d > td
-			} else {
-				bound = td.Add(me)
-				bad = float64(g.d) > float64(bound)*(1+1e-13)+1e-300 || g.d < td
+		approxVerdict := func(all []cand) *failure {
+			want := len(all)
+			if want > k {
+				want = k
 			}
-			if bad && !(math.Abs(float64(g.d)-float64(td)) <= 2*updateMinDistanceMaxError(td)) {
-				return &failure{kind: "error-bound", absent: absentOf(head), msg: fmt.Sprintf("result %d has distance %.17g; the %d-th best true distance is %.17g, MaxError %.3g allows up to %.17g", i, float64(g.d), i, float64(td), o.MaxError, float64(bound))}
+			head := all[:want]
+			if len(got) != want {
+				return &failure{kind: "missing", absent: absentOf(head), msg: fmt.Sprintf("%d results, scan has %d within the limit (MaxResults %d, MaxError %.3g); got%s; expected%s", len(got), len(all), k, o.MaxError, fmtCands(got, 8), fmtCands(all, 8))}
 			}
-			if td != 0 && td != 4 && me > 0 && bound != 0 && bound != 4 {
-				r := math.Abs(float64(g.d)-float64(td)) / math.Abs(float64(bound)-float64(td)+1e-300)
-				if r > ratios["approx_excess/MaxError"] && !math.IsInf(r, 0) && !math.IsNaN(r) {
-					ratios["approx_excess/MaxError"] = r
+			for i, g := range got {
+				td := all[i].d
+				var bad bool
+				var bound s1.ChordAngle
+				if f {
+					bound = td.Sub(me)
+					bad = float64(g.d) < float64(bound)*(1-1e-13)-1e-300 || g.d > td
+				} else {
+					bound = td.Add(me)
+					bad = float64(g.d) > float64(bound)*(1+1e-13)+1e-300 || g.d < td
+				}
+				if bad && !(math.Abs(float64(g.d)-float64(td)) <= 2*updateMinDistanceMaxError(td)) {
+					return &failure{kind: "error-bound", absent: absentOf(head), msg: fmt.Sprintf("result %d has distance %.17g; the %d-th best true distance is %.17g, MaxError %.3g allows up to %.17g", i, float64(g.d), i, float64(td), o.MaxError, float64(bound))}
+				}
+				if td != 0 && td != 4 && me > 0 && bound != 0 && bound != 4 {
+					r := math.Abs(float64(g.d)-float64(td)) / math.Abs(float64(bound)-float64(td)+1e-300)
+					if r > ratios["approx_excess/MaxError"] && !math.IsInf(r, 0) && !math.IsNaN(r) {
+						ratios["approx_excess/MaxError"] = r
+					}
 				}
 			}
+			return nil
 		}
-		return nil
+		fl := approxVerdict(all)
+		if fl != nil && (optimized || isIdx) {
+			// tolerated pruning: absent entries within the pruning tolerance of the limit
+			var kept []cand
+			for _, c := range all {
+				if !inGot[[2]int32{c.s, c.e}] && cx.nearLimit(c) {
+					continue
+				}
+				kept = append(kept, c)
+			}
+			if len(kept) < len(all) && approxVerdict(kept) == nil {
+				counts["tolerated.pruned-near-limit"]++
+				if cx.maxGapRatio > ratios["tolerated_gap/pruneTol"] {
+					ratios["tolerated_gap/pruneTol"] = cx.maxGapRatio
+				}
+				return nil
+			}
+		}
+		return fl
 	}
 
 	exactList := func(exp []cand) bool {
